@@ -24,6 +24,8 @@ EXPLANATION = (
     'GetCurrent().SetValue(span key, span).')
 EXPLANATION += " C10.R3 also checks every caller of Stack::Resize (which keeps size_-1 frames) to come after the size_ increment. C10.R4: when the token destructor's Detach is conditional on token state, that state is only written behind a successful storage Detach. C10.R5: Context::GetValue returns a stored value only behind key.size() == key_length_ and memcmp(...) == 0 over that length."
 EXPLANATION += ' C10.R3 treats the membership test (bool result) direction-agnostically - every attached frame must be examined, by a loop bounded by size_ or a standard algorithm over [base_, base_+size_) - and resolves slot writes through reference locals and copy bounds through once-initialised locals. C10.R4 follows the Scope constructor through private helpers.'
+ROUND2_EXPLANATION = (' C10.R3 also: typestate of a successful Detach over the edge on which the token equals the current top: exactly one Pop follows it before return true. C10.R5 also: in every list walk of Context (GetValue; HasKey when it does not delegate) the next node is unreachable once the key comparison is pinned to equal.')
+EXPLANATION += ROUND2_EXPLANATION
 NOT_DECIDED = 'stack behaviour over arbitrary attach/detach sequences and depths; GetValue lookup order beyond the list shape.'
 
 CTX = 'opentelemetry::context::Context'
